@@ -149,6 +149,11 @@ func mkAccount(seed uint64, purpose string, i int) *account.Account {
 		if new(big.Int).SetBytes(priv).Sign() == 0 {
 			continue
 		}
+		if r.Bool(0.25) && priv[1] != 0 {
+			// one key in 256 has a leading zero byte; crypto.GenerateKeyPair
+			// hands those out as 31-byte slices (big.Int.Bytes)
+			priv = priv[1:]
+		}
 		a, err := account.NewAccountWithPrivateKey(priv)
 		if err != nil {
 			continue
